@@ -7,6 +7,7 @@ raise/no-raise, and snapshots the node's plain view before and after (purity).
 The outcome is compared with a predicate written from the docstrings and
 evaluated on that same composed node.
 """
+import abc
 import collections
 import datetime
 import enum
@@ -80,6 +81,33 @@ class InnerX:
         self._yatiml_extra = _yatiml_extra
 
 
+class Shape(abc.ABC):
+    """Abstract root of a hierarchy."""
+    def __init__(self, sx: int) -> None:
+        self.sx = sx
+
+    @abc.abstractmethod
+    def area(self) -> int:
+        pass
+
+
+class Polygon(Shape):
+    """Still abstract: inherits the unimplemented method, does not name
+    abc.ABC among its own bases."""
+    def __init__(self, sx: int, sp: int) -> None:
+        super().__init__(sx)
+        self.sp = sp
+
+
+class Square(Polygon):
+    def __init__(self, sx: int, sp: int, sq: int) -> None:
+        super().__init__(sx, sp)
+        self.sq = sq
+
+    def area(self) -> int:
+        return 1
+
+
 class Probe:
     """Document class; its recogniser performs the call under test."""
     CALL = None
@@ -114,6 +142,8 @@ TYPES = {
     'union_bool_color': Union[bool, Color],
     'inner': Inner, 'list_inner': List[Inner],
     'innerx': InnerX, 'list_innerx': List[InnerX],
+    'shape': Shape, 'polygon': Polygon, 'square': Square,
+    'list_shape': List[Shape],
 }
 SCALAR_ARGS = [(), ('str',), ('int',), ('float',), ('bool',), ('none',),
                ('nonetype',), ('int', 'str'), ('float', 'int'),
@@ -178,6 +208,21 @@ def recognisable(v, t):
         if 'y' in d and not recognisable(d['y'], str):
             return False
         return True
+    if t in (Shape, Polygon, Square):
+        # only Square is concrete: a mapping is a Shape or a Polygon iff it
+        # is a Square
+        if v[0] != 'map':
+            return False
+        if v[2] not in (S.TAG_MAP, '!Square'):
+            raise Unspecified('class mapping with another tag')
+        keys = [k[2] if k[0] == 's' else None for k, _ in v[1]]
+        if len(set(map(str, keys))) != len(keys):
+            raise Unspecified('duplicate keys')
+        if None in keys:
+            return False
+        d = {k[2]: x for k, x in v[1]}
+        return set(d) == {'sx', 'sp', 'sq'} and all(
+            recognisable(x, int) for x in d.values())
     if t is InnerX:
         if v[0] != 'map':
             return False
@@ -284,7 +329,8 @@ def do_call(node, call):
 
 class Env:
     def __init__(self):
-        self.load = yatiml.load_function(Probe, Color, Inner, InnerX)
+        self.load = yatiml.load_function(Probe, Color, Inner, InnerX, Shape,
+                                         Polygon, Square)
         plain = yatiml.load_function()
         self.ctor = plain.loader('')
 
@@ -407,6 +453,10 @@ SPELL_HINT = {
     '{x: s}': (None, 'map_any'), 'yes': (None, 'str'), '-0.0': (10, 'float'),
     # mappings that are no class mapping for a reason other than a type:
     # a key twice, a key that is no scalar
+    '{sx: 1, sp: 2, sq: 3}': (None, 'shape'), '{sx: 1, sp: 2}': (None, 'polygon'),
+    '{sx: 1}': (None, 'shape'), '{sx: 1, sp: 2, sq: x}': (None, 'square'),
+    '[{sx: 1, sp: 2}, {sx: 1, sp: 2, sq: 3}]': (None, 'list_shape'),
+    '[{sx: 1, sp: 2, sq: 3}]': (None, 'list_shape'),
     '{x: 1, x: 2}': (None, 'inner'), '{x: 1, y: s, y: t}': (None, 'inner'),
     '{x: 1, [p]: 2}': (None, 'inner'), '[{x: 1, x: 1}]': (None, 'list_inner'),
 }
